@@ -194,7 +194,26 @@ def monitor_wait(case, impl):
     return None
 
 
+EVHIST = {}
+_cmp_n = [0]
+
+
+def _hist(impl):
+    # distribution of step observations on the implementation side (every 8th case)
+    for tok in impl.split(" "):
+        if tok.startswith("steps=") or tok.startswith("fin="):
+            for x in tok.split("=", 1)[1].split(","):
+                if x:
+                    ev = x.split("/")[0].split(":", 1)[-1] if tok.startswith("fin=") and x[0].isdigit() else x.split("/")[0]
+                    mk = x.split("/")[1] if x.count("/") == 2 else ""
+                    key = ev + ("+" + mk if mk else "")
+                    EVHIST[key] = EVHIST.get(key, 0) + 1
+
+
 def compare(case, model, impl):
+    _cmp_n[0] += 1
+    if _cmp_n[0] % 8 == 0:
+        _hist(impl)
     if model == impl:
         return None
     pm, pi = parse_out(model), parse_out(impl)
@@ -243,14 +262,14 @@ def gen(chk, tier):
     streams.append(("exhaustive-2x1", ex))
     # (b) every interleaving of 2 threads x 1-2 calls for a fixed set + a random sample of programs
     pl = list(FIXED_2X2)
-    for _ in range(30 if quick else 600):
+    for _ in range(30 if quick else 1200):
         pl.append([rand_prog(rng, 2), rand_prog(rng, 2)])
     ex2 = []
     for progs, (_, scheds) in zip(pl, enum_many(pl, "all", 9000 if quick else 200000)):
         ex2 += ["c16 progs=%s sched=%s" % (prog_str(progs), s) for s in scheds]
     streams.append(("exhaustive-2x2", ex2))
     # (c) one schedule per (reachable model state, thread) edge incl. the disabled steps, 3 threads x <= 2 calls
-    pl = [[rand_prog(rng, 2), rand_prog(rng, 2), rand_prog(rng, 2)] for _ in range(12 if quick else 150)]
+    pl = [[rand_prog(rng, 2), rand_prog(rng, 2), rand_prog(rng, 2)] for _ in range(12 if quick else 300)]
     pl.append([["KP"], ["C"], ["Kn", "I"]])
     ed = []
     for progs, (n, scheds) in zip(pl, enum_many(pl, "edges", 4000 if quick else 60000)):
@@ -259,7 +278,7 @@ def gen(chk, tier):
     streams.append(("state-edge-cover-3", ed))
     # (d) random bursty schedules, 4-5 threads x 1-3 calls
     rd = []
-    for _ in range(1500 if quick else 40000):
+    for _ in range(1500 if quick else 100000):
         nt = rng.choice([4, 5])
         progs = [rand_prog(rng, 3) for _ in range(nt)]
         total = sum(len(p) for p in progs)
@@ -446,6 +465,7 @@ def run(chk):
         except Exception as ex:
             chk.infra_errors.append("vm_compute cross-check failed: %r" % (ex,))
         run_wait_stream(chk, binary, chk.tier)
+        chk.cov["step_observation_histogram_sampled"] = dict(sorted(EVHIST.items()))
     chk.finish(search=search)
 
 
